@@ -10,6 +10,7 @@ from ..report import AnalysisError
 from ..srcmodel import unparse, norm, walk_no_nested, calls_in
 from .common import cfg_of, is_method_call, get_kw, facts_at, find_stmt_node, name_defs, derives_from, only_reached_from, parent_chain
 from . import tr
+from . import unitrules
 from ..tracer import Tracer
 
 from .common import Guard  # noqa: E402
@@ -23,6 +24,7 @@ DECIDED = [
     'R5: operand encoding follows the interpreter in use: every opcode whose name operand is shifted according to this interpreter\'s dis.py and that the bytecode patcher decodes or emits is shifted by the patcher too.',
     'R7: offset-bearing code attributes (co_exceptiontable) are not passed verbatim to the rebuilt code object when instructions were inserted; R8: operands are not read / written as single bytes without EXTENDED_ARG handling (both currently violated: known findings).',
     'R6: the patcher recurses into nested code objects (co_consts) before any early return that depends on the outer code object\'s names.',
+    'R9: Config.build / Config.__init__ evaluated: the evaluation context the caller passes (with its symbols) is the one that evaluates - a fresh EvalContext only when none is given; sources and options reach the builder unchanged.',
 ]
 UNDECIDED = ['correctness of the bytecode translation for all programs and CPython versions (jump fix-ups, exception tables, EXTENDED_ARG);', 'f-string normalisation; numerical results.']
 TRUSTED = ['dis.py of the interpreter that runs the check (same /venv interpreter the repo runs on)']
@@ -507,11 +509,13 @@ def check(repo, run, tier):
     g(r4, repo, run)
     g(r5, repo, run)
     g(r6, repo, run)
+    g(unitrules.config_entry, repo, run, 'C12.R9')
     g.done()
 
 
 def mutants(repo):
     return [
+        Mutant('build-drops-caller-context', lambda r: in_func(r, 'Config.build', "return Config(b.build(), eval_ctx=eval_ctx)", "return Config(b.build())"), ['C12.R9']),
         Mutant('symbols-leak-into-defaults', lambda r: in_func(r, 'EvalContext.get_eval_symbols', "        return self._eval_symbols", "        merged = EvalContext.get_default_eval_symbols()\n        merged.update(self._eval_symbols)\n        return merged"), ['C12.R1']),
         Mutant('context-shares-default-symbols', lambda r: in_func(r, 'EvalContext.__init__', "self._eval_symbols = copy.copy(EvalContext._default_eval_symbols)", "self._eval_symbols = EvalContext._default_eval_symbols"), ['C12.R1']),
         Mutant('wrapper-persisted-in-cached-namespace', lambda r: in_func(r, 'EvalNode.ayns.on_evaluate_impl', "        del gbls[EvalNode._globals_wrapper_name]\n", ""), ['C12.R1b']),
